@@ -44,15 +44,15 @@ type Execution struct {
 }
 
 type sched struct {
-	mu       sync.Mutex
-	threads  []*thread
-	cur      int
-	parked   chan int // thread id that parked or finished
-	prefix   []int
-	x        *Execution
-	horizon  int
-	record   bool
-	active   bool
+	mu      sync.Mutex
+	threads []*thread
+	cur     int
+	parked  chan int // thread id that parked or finished
+	prefix  []int
+	x       *Execution
+	horizon int
+	record  bool
+	active  bool
 }
 
 var s *sched
